@@ -1,6 +1,11 @@
 package sx
 
-import "go/types"
+import (
+	"fmt"
+	"go/types"
+
+	"golang.org/x/tools/go/ssa"
+)
 
 // NoopFunc is a function value that does nothing (context cancel functions).
 type NoopFunc struct{}
@@ -32,3 +37,66 @@ func (m *Machine) ctxValue(parent, key, val Value) Value {
 	*c = StructV{parent, key, val}
 	return IfaceV{T: types.NewPointer(t), V: Ptr{c}}
 }
+
+// ---- a sliver of reflect: type identity of a value and nil-ness of a reference ----
+
+func reflectIntrinsics(I map[string]Intrinsic) {
+	I["reflect.TypeOf"] = func(m *Machine, fn *ssa.Function, a []Value) Value {
+		iv, ok := a[0].(IfaceV)
+		if !ok || iv.T == nil {
+			return IfaceV{}
+		}
+		p := m.E.Prog.ImportedPackage("reflect")
+		if p == nil || p.Type("rtype") == nil {
+			m.unsupported("reflect.rtype not loaded")
+		}
+		return IfaceV{T: types.NewPointer(p.Type("rtype").Type()), V: Native{V: iv.T.String()}}
+	}
+	I["(*reflect.rtype).String"] = func(m *Machine, fn *ssa.Function, a []Value) Value {
+		if n, ok := a[0].(Native); ok {
+			if s, ok := n.V.(string); ok {
+				return s
+			}
+		}
+		m.unsupported("reflect type String of a non-modelled type")
+		return nil
+	}
+	I["reflect.ValueOf"] = func(m *Machine, fn *ssa.Function, a []Value) Value {
+		return Native{V: reflectBox{a[0]}}
+	}
+	I["(reflect.Value).IsNil"] = func(m *Machine, fn *ssa.Function, a []Value) Value {
+		n, ok := a[0].(Native)
+		if !ok {
+			m.unsupported("reflect.Value.IsNil on a non-modelled value")
+		}
+		b, ok := n.V.(reflectBox)
+		if !ok {
+			m.unsupported("reflect.Value.IsNil on a non-modelled value")
+		}
+		v := b.v
+		if iv, ok := v.(IfaceV); ok {
+			if iv.T == nil {
+				m.goPanic("reflect: call of reflect.Value.IsNil on zero Value")
+			}
+			v = iv.V
+		}
+		switch x := v.(type) {
+		case Ptr:
+			return m.ctx.Bool(x.C == nil)
+		case *MapV:
+			return m.ctx.Bool(x == nil)
+		case *ChanV:
+			return m.ctx.Bool(x == nil)
+		case SliceV:
+			return m.ctx.Bool(x.Nil)
+		case FuncNil:
+			return m.ctx.True
+		case *ClosureV, *ssa.Function, NoopFunc:
+			return m.ctx.False
+		}
+		m.unsupported(fmt.Sprintf("reflect.Value.IsNil of %T", v))
+		return nil
+	}
+}
+
+type reflectBox struct{ v Value }
